@@ -50,4 +50,69 @@ def run(F, rep, tier):
     scan = F.bodies.get("dmntk_recognizer::canvas::scan")
     if scan is None or not restructures(scan):
         rep.missing_anchor(rid, "positive control: scan() must be recognised as building the grid with Vec::push")
+    orientation_rule(F, rep)
     rep.explanation += " Recognition fidelity (same table as drawn, same result as the XML form) is geometry over run-time grids and is not decided."
+
+
+def orientation_rule(F, rep):
+    """R19.4 (a necessary condition of 'recognised with the same hit policy ... as drawn'): recognize_orientation has one successful exit per table layout;
+    each of them must record the same facts about the table. Decided on MIR: the set of Recognizer fields assigned on a path that returns Ok is the same
+    for every such path (a layout whose branch forgets `self.hit_policy = ...` silently keeps the default UNIQUE)."""
+    rid = rep.rule("R19.4", "every successful exit of Recognizer::recognize_orientation assigns the same set of fields (hit policy, orientation, rule count)")
+    name = "dmntk_recognizer::recognizer::Recognizer::recognize_orientation"
+    b = F.bodies.get(name)
+    adt = F.adts.get("dmntk_recognizer::recognizer::Recognizer")
+    if b is None or adt is None:
+        rep.missing_anchor(rid, name)
+        return
+    fnames = [f["name"] for f in adt["variants"][0]["fields"]]
+    blocks = b["blocks"]
+
+    def effects(bl):
+        fs, ret = set(), None
+        for st in bl["s"]:
+            if st[0] != "A":
+                continue
+            d = st[1]
+            if len(d) >= 3 and d[0] == 1 and d[1] == "*" and isinstance(d[2], list) and d[2][0] == ".":
+                fs.add(d[2][1])
+            if d == [0] and st[2][0] == "Agg" and isinstance(st[2][1], list) and st[2][1][0] == "adt" and st[2][1][1].endswith("result::Result"):
+                ret = st[2][1][-1]
+        t = bl["t"]
+        if t[0] == "call":
+            d = t[1].get("dest")
+            if d and len(d) >= 3 and d[0] == 1 and d[1] == "*" and isinstance(d[2], list) and d[2][0] == ".":
+                fs.add(d[2][1])
+            if d == [0]:
+                ret = "Err" if (t[1]["f"].get("p") or "").endswith("from_residual") else "?"
+        return fs, ret
+    states = {0: {(frozenset(), None)}}
+    work = [0]
+    oks = set()
+    while work:
+        x = work.pop()
+        fs, ret = effects(blocks[x])
+        cur = {(s | fs, ret if ret is not None else r) for s, r in states[x]}
+        t = blocks[x]["t"]
+        if t[0] == "ret":
+            oks |= {s for s, r in cur if r in ("Ok", "?")}
+        for y in mirutil.normal_successors(t):
+            old = states.get(y, set())
+            new = old | cur
+            if new != old:
+                states[y] = new
+                work.append(y)
+    # fields assigned unconditionally before the branching (placements) are in every set; compare the sets
+    if not oks:
+        rep.missing_anchor(rid, "an Ok return in recognize_orientation")
+        return
+    union = frozenset().union(*oks)
+    inter = frozenset(union).intersection(*oks)
+    rep.floor(rid, "successful exits (distinct field sets are merged)", len(oks), 1)
+    if union == inter and len(union) >= 3:
+        rep.ok(rid, "ok-paths", "every Ok path assigns %s" % sorted(fnames[i] for i in union))
+    elif union != inter:
+        rep.violation(rid, "ok-paths", "some successful path of recognize_orientation does not assign %s although the other successful paths do: that layout keeps the default value"
+                      % sorted(fnames[i] for i in union - inter), "%s:%s" % (b["file"], b["line"]))
+    else:
+        rep.missing_anchor(rid, "assignments of hit policy / orientation / rule count in recognize_orientation")
